@@ -363,10 +363,17 @@ fn is_split_required(transform: &SqlTransform, following: &mut HashSet<String>) 
 
         // Sort will be pushed down the CTEs, so there is no point in splitting for it.
         // Super(Sort(_)) => contains_any(following, ["From", "Join", "Compute", "Aggregate"]),
-        Super(Take(_)) => contains_any(
-            following,
-            ["From", "Join", "Compute", "Filter", "Aggregate", "Sort"],
-        ),
+        Super(Take(take)) => {
+            // Consecutive takes are composed into one LIMIT/OFFSET, which is only
+            // valid when they pick their rows from the same order.
+            let own_sort = take_sort_marker(take);
+            contains_any(
+                following,
+                ["From", "Join", "Compute", "Filter", "Aggregate", "Sort"],
+            ) || following
+                .iter()
+                .any(|f| f.starts_with(TAKE_SORT_MARKER) && *f != own_sort)
+        }
         SqlTransform::DistinctOn(_) => contains_any(
             following,
             [
@@ -413,8 +420,18 @@ fn is_split_required(transform: &SqlTransform, following: &mut HashSet<String>) 
 
     if !split {
         following.insert(transform.as_str().to_string());
+        if let Super(Take(take)) = transform {
+            following.insert(take_sort_marker(take));
+        }
     }
     split
+}
+
+const TAKE_SORT_MARKER: &str = "Take sorted by ";
+
+/// Entry of the `following` set that records the order a take picks its rows from.
+fn take_sort_marker(take: &rq::Take) -> String {
+    format!("{TAKE_SORT_MARKER}{:?}", take.sort)
 }
 
 /// An input requirement of a transform.
